@@ -322,6 +322,8 @@ where
             let hash = self.map.hasher().hash_one(string_slice);
             let shard_key = self.map.determine_shard(hash as usize);
             // Grab the shard and a write lock on it.
+            #[cfg(lasso_verif)]
+            crate::verif::point(crate::verif::Point::BeforeShardLock);
             let mut shard = self.map.shards().get(shard_key).unwrap().write();
             // Try getting the value for the `string_slice` key. If we get `Some`, nothing to do.
             // Just return the value, which is the key go to use to resolve the string. If we
@@ -336,13 +338,21 @@ where
                 Ok(occupied_bucket) => unsafe { *occupied_bucket.as_ref().1.get() },
                 Err(insert_slot) => {
                     // Safety: The drop impl removes all references before the arena is dropped
+                    #[cfg(lasso_verif)]
+                    crate::verif::point(crate::verif::Point::BeforeStore);
                     let string: &'static str = unsafe { self.arena.store_str(string_slice)? };
 
+                    #[cfg(lasso_verif)]
+                    crate::verif::point(crate::verif::Point::BeforeKeyFetch);
                     let key = K::try_from_usize(self.key.fetch_add(1, Ordering::SeqCst))
                         .ok_or_else(|| LassoError::new(LassoErrorKind::KeySpaceExhaustion))?;
 
+                    #[cfg(lasso_verif)]
+                    crate::verif::point(crate::verif::Point::BeforeStringsInsert);
                     self.strings.insert(key, string);
                     // Safety: insert_slot was just returned by find_insert_slot and we have not mutated the shard.
+                    #[cfg(lasso_verif)]
+                    crate::verif::point(crate::verif::Point::BeforeMapInsert);
                     unsafe {
                         shard.insert_in_slot(hash, insert_slot, (string, SharedValue::new(key)));
                     }
@@ -412,12 +422,20 @@ where
         if let Some(key) = self.map.get(string) {
             Ok(*key)
         } else {
+            #[cfg(lasso_verif)]
+            crate::verif::point(crate::verif::Point::BeforeEntry);
             let key = match self.map.entry(string) {
                 Entry::Occupied(o) => *o.get(),
                 Entry::Vacant(v) => {
+                    #[cfg(lasso_verif)]
+                    crate::verif::point(crate::verif::Point::BeforeKeyFetch);
                     let key = K::try_from_usize(self.key.fetch_add(1, Ordering::SeqCst))
                         .ok_or_else(|| LassoError::new(LassoErrorKind::KeySpaceExhaustion))?;
+                    #[cfg(lasso_verif)]
+                    crate::verif::point(crate::verif::Point::BeforeStringsInsert);
                     self.strings.insert(key, string);
+                    #[cfg(lasso_verif)]
+                    crate::verif::point(crate::verif::Point::BeforeMapInsert);
                     v.insert(key);
 
                     key
@@ -772,6 +790,20 @@ impl<K, S> ThreadedRodeo<K, S> {
     #[doc(hidden)]
     pub fn verif_key_counter(&self) -> usize {
         self.key.load(Ordering::SeqCst)
+    }
+}
+
+#[cfg(lasso_verif)]
+impl<K, S> ThreadedRodeo<K, S>
+where
+    K: Key + Hash,
+    S: BuildHasher + Clone,
+{
+    /// Verification hook (read-only): the shard of the string -> key map that `string` belongs to
+    #[doc(hidden)]
+    pub fn verif_shard_of(&self, string: &str) -> usize {
+        let hash = self.map.hasher().hash_one(string);
+        self.map.determine_shard(hash as usize)
     }
 }
 
